@@ -16,7 +16,7 @@ EXPLANATION = (
     "runs), every exported function from every handle state (object invariant, so any call sequence ending in destroy), "
     "destroy from every state (nothing left), the helper allocators (strv_concat, path_prepend_cwd, sink_string, pipe_poll, "
     "reproc_poll, run). libc close() is called by one function only. Not decided: heap state over arbitrary call sequences "
-    "beyond the per-function + handle-invariant argument.")
+    "beyond the per-function + handle-invariant argument. In this check read() on a valid pipe may also fail with errors other than EINTR, so that a child left behind by an odd read failure after fork is seen.")
 ASSUMPTIONS = [
     "clang 14 parser/CFG and the fact extractor are correct", "libc models in sa/models.py",
     "summaries of process_fork / process_start verified in the same run; parse_options summary verified by C13",
